@@ -66,6 +66,7 @@ class Receiver:
         self.task_signatures: Dict[str, inspect.Signature] = {}
         self.task_hints: Dict[str, Dict[str, Any]] = {}
         self.dependency_graphs: Dict[str, DependencyGraph] = {}
+        self.prepared_handlers: Dict[str, Callable[..., Any]] = {}
         self.propagate_exceptions = propagate_exceptions
         self.on_exit = on_exit
         self.ack_time = ack_type or AcknowledgeType.WHEN_SAVED
@@ -210,7 +211,13 @@ class Receiver:
         returned = None
         found_exception: "Optional[BaseException]" = None
         signature = None
-        if message.task_name not in self.known_tasks:
+        # The cached signature, hints and dependency graph belong to one function.
+        # Another function may have been registered under the name since then.
+        prepared = self.prepared_handlers.get(message.task_name)
+        if message.task_name not in self.known_tasks or (
+            prepared is not target
+            and prepared is not getattr(target, "original_func", target)
+        ):
             self._prepare_task(message.task_name, target)
         if self.validate_params:
             signature = self.task_signatures.get(message.task_name)
@@ -476,6 +483,7 @@ class Receiver:
         :param handler: task handler.
         """
         self.known_tasks.add(name)
+        self.prepared_handlers[name] = handler
         self.task_signatures[name] = inspect.signature(handler)
         self.task_hints[name] = get_type_hints(handler)
         self.dependency_graphs[name] = DependencyGraph(handler)
